@@ -493,3 +493,7 @@ def run(ck: Check, repo: Repo) -> None:
     rule_constants(ck, repo, folder)
     rule_globs(ck, repo, folder)
     rule_parser_options(ck, repo)
+    # 'lint output is unchanged': the BEFORE side must really see dep5 - in a pool worker it is re-parsed from the
+    # root-anchored path (shared with C14-R2)
+    from . import c14
+    c14.rule_pool(ck, repo, "R8")
